@@ -1,7 +1,11 @@
 // C08 driver.  Runs the REAL TinyNonLinearSolverBase::solveNonLinearSystem
 //  (M) with a mock CRTP child whose hook outcomes are scripted, and
-//  (S) inside the six real solvers (Newton-Raphson, Broyden, Broyden2, Levenberg-Marquardt, Powell dog-leg NR /
-//      Broyden) on residual families with injected failures / NaN / inf,
+//  (S/Q/T) inside the six real solvers (Newton-Raphson, Broyden, Broyden2, Levenberg-Marquardt, Powell dog-leg NR /
+//      Broyden, N = 2) on residual families (affine + quadratic, products of quadratics / rational functions with known
+//      roots) with injected failures / NaN / inf,
+//  (K) the six solvers with N = 1 on f(x) = x^3 - x, admissible only for x > xmin (computeResidual fills fzeros and then
+//      returns false outside),
+//  (D) one computeNewCorrection of the two dog-leg solvers (N = 2) on a given jacobian / residual / radius,
 // and prints every hook call in order (codes as in coq/C08Float.v `enc`) with the values it saw.
 #include <cmath>
 #include <cstdio>
@@ -140,27 +144,40 @@ struct Mock : Logged<tfel::math::TinyNonLinearSolverBase<2, double, Mock>> {
   using TinyNonLinearSolverBase::fzeros;
 };
 
-// residual family F_i(z) = sum_j A_ij z_j + b_i + c_i z_i^2 with injected failures
+// residual families with injected failures
+//   type 0: F_i(z) = sum_j A_ij z_j + b_i + c_i z_i^2
+//   type 1: F = A q(z), q_i(z) = (z_i - b_i) (z_i - c_i)          roots: z_i in {b_i, c_i} (A non singular)
+//   type 2: F = A q(z), q_i(z) = (z_i - b_i) / (1 + z_i^2)        root:  z = b
 struct Problem {
   double A[2][2], b[2], c[2];
   int jacinit;
   std::map<int, int> inj;  // evaluation index -> 0: return false, 1: NaN residual, 2: inf residual
+  int type = 0;
 };
 
 template <typename Base>
 struct Real : Logged<Base> {
   Problem p;
   int k = 0;
+  double q(int i, double x) const { return p.type == 1 ? (x - p.b[i]) * (x - p.c[i]) : (x - p.b[i]) / (1 + x * x); }
+  double dq(int i, double x) const {
+    return p.type == 1 ? 2 * x - p.b[i] - p.c[i] : (1 + x * x - 2 * x * (x - p.b[i])) / ((1 + x * x) * (1 + x * x));
+  }
   void F(const tvector<2, double>& z, tvector<2, double>& f) const {
     for (unsigned short i = 0; i != 2; ++i) {
-      f[i] = p.A[i][0] * z[0] + p.A[i][1] * z[1] + p.b[i] + p.c[i] * z[i] * z[i];
+      if (p.type == 0) f[i] = p.A[i][0] * z[0] + p.A[i][1] * z[1] + p.b[i] + p.c[i] * z[i] * z[i];
+      else f[i] = p.A[i][0] * q(0, z[0]) + p.A[i][1] * q(1, z[1]);
     }
   }
   template <typename M>
   void J(const tvector<2, double>& z, M& j) const {
     for (unsigned short i = 0; i != 2; ++i) {
-      for (unsigned short l = 0; l != 2; ++l) j(i, l) = p.A[i][l];
-      j(i, i) += 2 * p.c[i] * z[i];
+      if (p.type == 0) {
+        for (unsigned short l = 0; l != 2; ++l) j(i, l) = p.A[i][l];
+        j(i, i) += 2 * p.c[i] * z[i];
+      } else {
+        for (unsigned short l = 0; l != 2; ++l) j(i, l) = p.A[i][l] * dq(l, z[l]);
+      }
     }
   }
   static constexpr bool has_jacobian = requires(Base& s) { s.jacobian; };
@@ -249,6 +266,115 @@ struct LM : Real<tfel::math::TinyLevenbergMarquardtSolver<2, double, LM>> {};
 struct PNR : Real<tfel::math::TinyPowellDogLegNewtonRaphsonSolver<2, double, PNR>> {};
 struct PBR : Real<tfel::math::TinyPowellDogLegBroydenSolver<2, double, PBR>> {};
 
+// N = 1: f(x) = x^3 - x, admissible only for x > xmin: computeResidual fills fzeros (and the jacobian) and THEN reports
+// failure, as MFront behaviours do when an internal check rejects the state.  Roots: -1 (inadmissible for xmin = -0.5), 0, 1.
+template <typename Base>
+struct Cubic : Logged<Base> {
+  double xmin = -0.5;
+  int k = 0;
+  static constexpr bool has_jacobian = requires(Base& s) { s.jacobian; };
+  static constexpr bool is_quasi_newton = requires(Base& s) { s.fzeros_1; };
+  bool computeResidual() {
+    ++k;
+    if (k > guard_max) throw Overrun{};
+    const double x = this->zeros[0];
+    this->fzeros[0] = x * x * x - x;
+    if constexpr (has_jacobian && !is_quasi_newton) this->jacobian(0, 0) = 3 * x * x - 1;
+    const bool ok = x > xmin;
+    ev(ok ? REST : RESF, {x});
+    return ok;
+  }
+  bool computeNewCorrection() {
+    const double zb = this->zeros[0];
+    const bool r = Base::computeNewCorrection();
+    if (!r) {
+      ev(CORRF);
+      return false;
+    }
+    ev(CORRT, zb == this->zeros[0] ? std::vector<double>{this->delta_zeros[0]}
+                                    : std::vector<double>{this->delta_zeros[0], this->zeros[0]});
+    return true;
+  }
+  void setup(const int im, const double eps, const double x0) {
+    this->iterMax = static_cast<unsigned short>(im);
+    this->epsilon = eps;
+    this->zeros[0] = x0;
+    this->delta_zeros[0] = 0;
+    this->fzeros[0] = 0;
+    if constexpr (is_quasi_newton) {
+      if constexpr (has_jacobian) this->jacobian(0, 0) = 3 * x0 * x0 - 1;
+      else this->inv_jacobian(0, 0) = 1 / (3 * x0 * x0 - 1);
+    }
+    if constexpr (requires(Base& s) { s.powell_dogleg_trust_region_size; }) this->powell_dogleg_trust_region_size = 2.0;
+    if constexpr (requires(Base& s) { s.levmar_mu0; }) {
+      this->levmar_mu0 = 1e-6;
+      this->levmar_p0 = 1e-4;
+      this->levmar_p1 = 0.25;
+      this->levmar_p2 = 0.75;
+      this->levmar_m = 1e-8;
+    }
+  }
+  int run() {
+    const bool r = this->solveNonLinearSystem();
+    if (!r) return 0;
+    const double x = this->zeros[0];
+    const double f = x * x * x - x;
+    return std::memcmp(&f, &this->fzeros[0], sizeof(double)) == 0 ? 1 : 2;
+  }
+  int get_iter() const { return this->iter; }
+  double z() const { return this->zeros[0]; }
+};
+struct NR1 : Cubic<tfel::math::TinyNewtonRaphsonSolver<1, double, NR1>> {};
+struct BR1 : Cubic<tfel::math::TinyBroydenSolver<1, double, BR1>> {};
+struct BR21 : Cubic<tfel::math::TinyBroyden2Solver<1, double, BR21>> {};
+struct LM1 : Cubic<tfel::math::TinyLevenbergMarquardtSolver<1, double, LM1>> {};
+struct PNR1 : Cubic<tfel::math::TinyPowellDogLegNewtonRaphsonSolver<1, double, PNR1>> {};
+struct PBR1 : Cubic<tfel::math::TinyPowellDogLegBroydenSolver<1, double, PBR1>> {};
+
+// one computeNewCorrection of the two dog-leg solvers on a given (jacobian, residual, radius); iter = 0
+template <typename Base>
+struct OneStep : Base {
+  bool go(const double* j, const double* f, const double radius, double* d) {
+    for (unsigned short i = 0; i != 2; ++i) {
+      this->fzeros[i] = f[i];
+      for (unsigned short l = 0; l != 2; ++l) this->jacobian(i, l) = j[2 * i + l];
+    }
+    this->powell_dogleg_trust_region_size = radius;
+    this->iter = 0;
+    this->delta_zeros[0] = this->delta_zeros[1] = 0;
+    const bool r = Base::computeNewCorrection();
+    d[0] = this->delta_zeros[0];
+    d[1] = this->delta_zeros[1];
+    return r;
+  }
+  bool computeResidual() { return true; }
+};
+struct PNRs : OneStep<tfel::math::TinyPowellDogLegNewtonRaphsonSolver<2, double, PNRs>> {};
+struct PBRs : OneStep<tfel::math::TinyPowellDogLegBroydenSolver<2, double, PBRs>> {};
+
+static void out1(const std::string& id, int res, int iter, double z0) {
+  std::printf("R %s %d %d", id.c_str(), res, iter);
+  pr(z0);
+  std::printf(" %zu", events.size());
+  for (const auto& e : events) {
+    std::printf(" %d %zu", e.code, e.p.size());
+    for (const auto x : e.p) pr(x);
+  }
+  std::printf("\n");
+}
+template <typename S>
+static void run_cubic(const std::string& id, int im, double eps, double x0, double xmin) {
+  S s;
+  s.xmin = xmin;
+  s.setup(im, eps, x0);
+  guard_max = 4 * im + 8;
+  try {
+    const int r = s.run();
+    out1(id, r, s.get_iter(), s.z());
+  } catch (Overrun&) {
+    out1(id, 3, s.get_iter(), s.z());
+  }
+}
 static void out(const std::string& id, int res, int iter, double z0, double z1) {
   std::printf("R %s %d %d", id.c_str(), res, iter);
   pr(z0);
@@ -308,11 +434,43 @@ int main(int argc, char** argv) {
       } catch (Overrun&) {
         out(id, 3, m.iter, m.zeros[0], m.zeros[1]);
       }
+    } else if (kind == "K") {
+      int solver, im;
+      is >> solver >> im;
+      const double eps = rd(is), x0 = rd(is), xmin = rd(is);
+      switch (solver) {
+        case 0: run_cubic<NR1>(id, im, eps, x0, xmin); break;
+        case 1: run_cubic<BR1>(id, im, eps, x0, xmin); break;
+        case 2: run_cubic<BR21>(id, im, eps, x0, xmin); break;
+        case 3: run_cubic<LM1>(id, im, eps, x0, xmin); break;
+        case 4: run_cubic<PNR1>(id, im, eps, x0, xmin); break;
+        default: run_cubic<PBR1>(id, im, eps, x0, xmin);
+      }
+    } else if (kind == "D") {
+      int solver;
+      is >> solver;
+      double j[4], f[2], d[2];
+      for (auto& x : j) x = rd(is);
+      for (auto& x : f) x = rd(is);
+      const double radius = rd(is);
+      bool r;
+      if (solver == 4) {
+        PNRs s;
+        r = s.go(j, f, radius, d);
+      } else {
+        PBRs s;
+        r = s.go(j, f, radius, d);
+      }
+      std::printf("D %s %d", id.c_str(), int(r));
+      pr(d[0]);
+      pr(d[1]);
+      std::printf("\n");
     } else {
       int solver, im, ninj;
       is >> solver >> im;
       const double eps = rd(is), z0 = rd(is), z1 = rd(is);
       Problem p;
+      p.type = kind == "S" ? 0 : (kind == "Q" ? 1 : 2);
       for (auto& row : p.A) for (auto& x : row) x = rd(is);
       for (auto& x : p.b) x = rd(is);
       for (auto& x : p.c) x = rd(is);
